@@ -295,20 +295,20 @@ class GridWeighted(Grid):
         else:
             raise TypeError("The input should be a list, tuple or a single int, float value")
 
-        # Weighted grid points must be re-generated with the new weights
-        self._cache['gridptsw'][:] = []
+        # Weighted grid points must be re-generated with the new weights (a grid returned earlier stays as it is)
+        self._cache['gridptsw'] = []
 
     def reset(self):
         """ Resets the grid. """
         super(GridWeighted, self).reset()
         if self._grid_points or self._weights:
-            self._cache['gridptsw'][:] = []
-            self._weights[:] = []
+            self._cache['gridptsw'] = []
+            self._weights = []
 
     def bumps(self, num_bumps, **kwargs):
         super(GridWeighted, self).bumps(num_bumps, **kwargs)
         # Weighted grid points must be re-generated with the updated grid points
-        self._cache['gridptsw'][:] = []
+        self._cache['gridptsw'] = []
 
     bumps.__doc__ = Grid.bumps.__doc__
 
